@@ -1,0 +1,134 @@
+//go:build verif
+
+// Contracts for package tty, read as text by /verif/engine (govc); no code.
+// The reference terminal of C17 is transcribed operation by operation into
+// the ensures clauses; wfVT is the representation invariant.
+
+package tty
+
+//@ mode int
+
+// byte k (0 char, 1 fg, 2 bg) of cell x (1-based) on buffer line `line` (0-based)
+//@ spec cellIdx(t *VT, x uint32, line uint32) int = (line*t.viewportWidth + (x-1))*3
+//@ spec blankByte(t *VT, i int) uint8 = ite(i%3 == 0, 32, ite(i%3 == 1, t.defaultFg, t.defaultBg))
+// wfVTx: the invariant without the cursor column (inside doWrite the column is momentarily one past the edge)
+//@ pred wfVTx(t *VT) = t != nil && t.cons != nil && t.viewportWidth >= 1 && t.viewportHeight >= 1 && t.termWidth == t.viewportWidth && t.termHeight == t.viewportHeight + t.scrollback && !isnil(t.data) && len(t.data) == t.termWidth*t.termHeight*3 && len(t.data) < 0x40000000 && t.cursorY >= 1 && t.cursorY <= t.viewportHeight && t.viewportY + t.viewportHeight <= t.termHeight && t.curFg == t.defaultFg && t.curBg == t.defaultBg && console.scrW == t.viewportWidth && console.scrH == t.viewportHeight && forall(i, int, (t.viewportY + t.viewportHeight)*t.viewportWidth*3 <= i && i < len(t.data) ==> t.data[i] == blankByte(t, i))
+//@ pred wfVT(t *VT) = wfVTx(t) && t.cursorX >= 1 && t.cursorX <= t.viewportWidth && t.dataOffset == cellIdx(t, t.cursorX, t.viewportY + t.cursorY - 1)
+// C18: while active, the console grid shows exactly the viewport
+//@ pred synced(t *VT) = t.state == StateActive ==> forall(x, uint32, y, uint32, x >= 1 && x <= t.viewportWidth && y >= 1 && y <= t.viewportHeight ==> console.scr[(y-1)*t.viewportWidth + (x-1)] == console.cellOf(t.data[cellIdx(t, x, t.viewportY + y - 1)], t.data[cellIdx(t, x, t.viewportY + y - 1) + 1], t.data[cellIdx(t, x, t.viewportY + y - 1) + 2]))
+// everything of the terminal except the cursor, the viewport position and the buffer contents
+//@ pred geomSame(t *VT) = t.cons == old(t.cons) && t.viewportWidth == old(t.viewportWidth) && t.viewportHeight == old(t.viewportHeight) && t.termWidth == old(t.termWidth) && t.termHeight == old(t.termHeight) && t.scrollback == old(t.scrollback) && t.data == old(t.data) && t.tabWidth == old(t.tabWidth) && t.defaultFg == old(t.defaultFg) && t.defaultBg == old(t.defaultBg) && t.curFg == old(t.curFg) && t.curBg == old(t.curBg) && t.state == old(t.state)
+// arithmetic of the cell layout: the three bytes of cell x on line a lie inside [a*w*3, b*w*3) whenever a < b
+//@ lemma cellRows(a uint32, b uint32, x uint32, w uint32): x >= 1 && x <= w && a < b ==> (a*w + (x-1))*3 >= a*w*3 && (a*w + (x-1))*3 + 2 < b*w*3 && ((a+1)*w + (x-1))*3 == (a*w + (x-1))*3 + w*3
+//@   by auto
+//@   property C17 C18
+//@ lemma mulMono(a uint32, b uint32, w uint32): a <= b ==> a*w*3 <= b*w*3
+//@   by auto
+//@   property C17 C18
+//@ pred dataSame(t *VT) = forall(i, int, 0 <= i && i < len(t.data) ==> t.data[i] == old(t.data[i]))
+
+//@ func (t *VT) updateDataOffset()
+//@   property C17
+//@   requires t != nil && t.cursorX >= 1 && t.cursorY >= 1 && (t.viewportY + t.cursorY)*t.viewportWidth*3 + t.cursorX*3 < 0x100000000
+//@   modifies t.dataOffset
+//@   ensures t.dataOffset == cellIdx(t, t.cursorX, t.viewportY + t.cursorY - 1)
+
+//@ func (t *VT) cr()
+//@   property C17
+//@   requires wfVT(t)
+//@   modifies t.cursorX, t.dataOffset
+//@   ensures wfVT(t) && t.cursorX == 1 && t.cursorY == old(t.cursorY) && t.viewportY == old(t.viewportY)
+
+//@ func (t *VT) SetCursorPosition(x uint32, y uint32)
+//@   property C17
+//@   requires wfVT(t)
+//@   modifies t.cursorX, t.cursorY, t.dataOffset
+//@   ensures wfVT(t) && t.viewportY == old(t.viewportY)
+//@   ensures t.cursorX == ite(x < 1, 1, ite(x > t.viewportWidth, t.viewportWidth, x)) && t.cursorY == ite(y < 1, 1, ite(y > t.viewportHeight, t.viewportHeight, y))
+
+// line feed: next line; on the last viewport line first move the viewport down through the
+// scrollback, then scroll the viewport's lines up by one and blank the last line
+//@ func (t *VT) lf(withCR bool)
+//@   property C17 C18
+//@   requires wfVTx(t) && (withCR || (t.cursorX >= 1 && t.cursorX <= t.viewportWidth))
+//@   modifies t.cursorX, t.cursorY, t.viewportY, t.dataOffset, elems(uint8), console.scr
+//@   ensures wf: wfVT(t) && geomSame(t)
+//@   ensures col: t.cursorX == ite(withCR, 1, old(t.cursorX))
+//@   ensures next: old(t.cursorY) < t.viewportHeight ==> t.cursorY == old(t.cursorY) + 1 && t.viewportY == old(t.viewportY) && dataSame(t)
+//@   ensures view: old(t.cursorY) == t.viewportHeight && old(t.viewportY) + t.viewportHeight < t.termHeight ==> t.cursorY == old(t.cursorY) && t.viewportY == old(t.viewportY) + 1 && dataSame(t)
+//@   ensures scroll: old(t.cursorY) == t.viewportHeight && old(t.viewportY) + t.viewportHeight == t.termHeight ==> t.cursorY == old(t.cursorY) && t.viewportY == old(t.viewportY) && forall(i, int, 0 <= i && i < len(t.data) ==> t.data[i] == ite(i >= t.viewportY*t.viewportWidth*3 && i < (t.viewportY + t.viewportHeight - 1)*t.viewportWidth*3, old(t.data[i + t.viewportWidth*3]), ite(i >= (t.viewportY + t.viewportHeight - 1)*t.viewportWidth*3 && i < (t.viewportY + t.viewportHeight)*t.viewportWidth*3, blankByte(t, i), old(t.data[i]))))
+//@   ensures noscr: old(t.cursorY) < t.viewportHeight ==> console.scr == old(console.scr)
+//@   ensures scrolled: t.state == StateActive && old(t.cursorY) == t.viewportHeight ==> forall(x, uint32, y, uint32, x >= 1 && x <= t.viewportWidth && y >= 1 && y <= t.viewportHeight ==> console.scr[(y-1)*t.viewportWidth + (x-1)] == ite(y < t.viewportHeight, old(console.scr)[y*t.viewportWidth + (x-1)], console.cellOf(32, t.defaultFg, t.defaultBg)))
+//@   ensures quiet: t.state != StateActive ==> console.scr == old(console.scr)
+//@   loop 1 (offset < endOffset) invariant offset >= startOffset && offset <= endOffset && stride == t.viewportWidth*3 && startOffset == t.viewportY*stride && endOffset == (t.viewportY + t.viewportHeight - 1)*stride && t.viewportY + t.viewportHeight == t.termHeight
+//@   loop 1 invariant moved: forall(i, int, 0 <= i && i < len(t.data) ==> t.data[i] == ite(i >= startOffset && i < offset, old(t.data[i + stride]), old(t.data[i])))
+//@   loop 2 (offset < endOffset+stride) ghost k = 0
+//@   loop 2 step k = k + 1
+//@   loop 2 invariant k <= t.viewportWidth && offset == endOffset + k*3 && stride == t.viewportWidth*3 && startOffset == t.viewportY*stride && endOffset == (t.viewportY + t.viewportHeight - 1)*stride && t.viewportY + t.viewportHeight == t.termHeight
+//@   loop 2 invariant blanked: forall(i, int, 0 <= i && i < len(t.data) ==> t.data[i] == ite(i >= startOffset && i < endOffset, old(t.data[i + stride]), ite(i >= endOffset && i < offset, blankByte(t, i), old(t.data[i]))))
+
+// store one byte at the cursor in the default colours; optionally advance (wrapping to the next line)
+//@ func (t *VT) doWrite(b byte, advanceCursor bool)
+//@   property C17 C18
+//@   requires wfVT(t)
+//@   modifies t.cursorX, t.cursorY, t.viewportY, t.dataOffset, elems(uint8), console.scr
+//@   ensures wf: wfVT(t) && geomSame(t)
+//@   ensures stay: !advanceCursor ==> t.cursorX == old(t.cursorX) && t.cursorY == old(t.cursorY) && t.viewportY == old(t.viewportY)
+//@   ensures adv: advanceCursor && old(t.cursorX) < t.viewportWidth ==> t.cursorX == old(t.cursorX) + 1 && t.cursorY == old(t.cursorY) && t.viewportY == old(t.viewportY)
+//@   ensures cell: !advanceCursor || old(t.cursorX) < t.viewportWidth ==> forall(i, int, 0 <= i && i < len(t.data) ==> t.data[i] == ite(i == old(t.dataOffset), b, ite(i == old(t.dataOffset) + 1, t.defaultFg, ite(i == old(t.dataOffset) + 2, t.defaultBg, old(t.data[i])))))
+//@   ensures wrapcol: advanceCursor && old(t.cursorX) == t.viewportWidth ==> t.cursorX == 1
+//@   ensures wrapnext: advanceCursor && old(t.cursorX) == t.viewportWidth && old(t.cursorY) < t.viewportHeight ==> t.cursorY == old(t.cursorY) + 1 && t.viewportY == old(t.viewportY) && forall(i, int, 0 <= i && i < len(t.data) ==> t.data[i] == ite(i == old(t.dataOffset), b, ite(i == old(t.dataOffset) + 1, t.defaultFg, ite(i == old(t.dataOffset) + 2, t.defaultBg, old(t.data[i])))))
+//@   ensures wrapview: advanceCursor && old(t.cursorX) == t.viewportWidth && old(t.cursorY) == t.viewportHeight && old(t.viewportY) + t.viewportHeight < t.termHeight ==> t.cursorY == old(t.cursorY) && t.viewportY == old(t.viewportY) + 1 && forall(i, int, 0 <= i && i < len(t.data) ==> t.data[i] == ite(i == old(t.dataOffset), b, ite(i == old(t.dataOffset) + 1, t.defaultFg, ite(i == old(t.dataOffset) + 2, t.defaultBg, old(t.data[i])))))
+//@   ensures wrapscroll: advanceCursor && old(t.cursorX) == t.viewportWidth && old(t.cursorY) == t.viewportHeight && old(t.viewportY) + t.viewportHeight == t.termHeight ==> t.cursorY == old(t.cursorY) && t.viewportY == old(t.viewportY)
+//@   ensures quiet: t.state != StateActive ==> console.scr == old(console.scr)
+//@   ensures syncstay: old(synced(t)) && (!advanceCursor || old(t.cursorX) < t.viewportWidth) ==> synced(t)
+
+// one byte of input: CR, LF, backspace, tab, or an ordinary byte
+//@ func (t *VT) WriteByte(b byte) (err error)
+//@   property C17 C18
+//@   requires wfVT(t)
+//@   modifies t.cursorX, t.cursorY, t.viewportY, t.dataOffset, elems(uint8), console.scr
+//@   ensures wf: wfVT(t) && geomSame(t) && isnil(err)
+//@   ensures cr: b == 13 ==> t.cursorX == 1 && t.cursorY == old(t.cursorY) && t.viewportY == old(t.viewportY) && dataSame(t)
+//@   ensures lfcol: b == 10 ==> t.cursorX == 1
+//@   ensures lfnext: b == 10 && old(t.cursorY) < t.viewportHeight ==> t.cursorY == old(t.cursorY) + 1 && t.viewportY == old(t.viewportY) && dataSame(t)
+//@   ensures lfview: b == 10 && old(t.cursorY) == t.viewportHeight && old(t.viewportY) + t.viewportHeight < t.termHeight ==> t.cursorY == old(t.cursorY) && t.viewportY == old(t.viewportY) + 1 && dataSame(t)
+//@   ensures bs0: b == 8 && old(t.cursorX) == 1 ==> t.cursorX == 1 && t.cursorY == old(t.cursorY) && t.viewportY == old(t.viewportY) && dataSame(t)
+//@   ensures bs: b == 8 && old(t.cursorX) > 1 ==> t.cursorX == old(t.cursorX) - 1 && t.cursorY == old(t.cursorY) && t.viewportY == old(t.viewportY) && forall(i, int, 0 <= i && i < len(t.data) ==> t.data[i] == ite(i == old(t.dataOffset) - 3, 32, ite(i == old(t.dataOffset) - 2, t.defaultFg, ite(i == old(t.dataOffset) - 1, t.defaultBg, old(t.data[i])))))
+//@   ensures plain: b != 13 && b != 10 && b != 8 && b != 9 && old(t.cursorX) < t.viewportWidth ==> t.cursorX == old(t.cursorX) + 1 && t.cursorY == old(t.cursorY) && t.viewportY == old(t.viewportY) && forall(i, int, 0 <= i && i < len(t.data) ==> t.data[i] == ite(i == old(t.dataOffset), b, ite(i == old(t.dataOffset) + 1, t.defaultFg, ite(i == old(t.dataOffset) + 2, t.defaultBg, old(t.data[i])))))
+//@   ensures quiet: t.state != StateActive ==> console.scr == old(console.scr)
+//@   loop 1 (i < t.tabWidth) invariant wfVT(t) && geomSame(t) && (t.state != StateActive ==> console.scr == old(console.scr))
+
+//@ func (t *VT) Write(data []byte) (n int, err error)
+//@   property C17 C18
+//@   requires wfVT(t)
+//@   modifies t.cursorX, t.cursorY, t.viewportY, t.dataOffset, elems(uint8), console.scr
+//@   ensures wfVT(t) && geomSame(t) && n == len(data) && isnil(err)
+//@   ensures quiet: t.state != StateActive ==> console.scr == old(console.scr)
+//@   loop 1 (range data) invariant rangeindex >= -1 && rangeindex < len(data) && wfVT(t) && geomSame(t) && (t.state != StateActive ==> console.scr == old(console.scr))
+
+
+// attach: geometry and colours from the console, all cells blank, cursor home
+//@ func (t *VT) AttachTo(cons console.Device)
+//@   property C17 C18
+//@   requires t != nil && (cons != nil ==> console.scrW >= 1 && console.scrH >= 1 && t.scrollback < 0x10000 && console.scrW*(console.scrH + t.scrollback)*3 < 0x40000000 && console.scrH < 0x10000)
+//@   modifies t.cons, t.viewportWidth, t.viewportHeight, t.viewportY, t.defaultFg, t.defaultBg, t.curFg, t.curBg, t.termWidth, t.termHeight, t.cursorX, t.cursorY, t.data, elems(uint8)
+//@   ensures none: cons == nil ==> t.cons == old(t.cons) && t.data == old(t.data)
+//@   ensures geom: cons != nil ==> t.cons == cons && t.viewportWidth == console.scrW && t.viewportHeight == console.scrH && t.termWidth == console.scrW && t.termHeight == console.scrH + t.scrollback && t.viewportY == 0 && t.cursorX == 1 && t.cursorY == 1 && t.defaultFg == console.scrFg && t.defaultBg == console.scrBg && t.curFg == t.defaultFg && t.curBg == t.defaultBg
+//@   ensures blank: cons != nil ==> len(t.data) == t.termWidth*t.termHeight*3 && !isnil(t.data) && forall(j, int, 0 <= j && j < len(t.data) ==> t.data[j] == blankByte(t, j))
+//@   ensures quiet: console.scr == old(console.scr)
+//@   loop 1 (i < len(t.data)) invariant i >= 0 && i%3 == 0 && i <= len(t.data) && len(t.data) == t.termWidth*t.termHeight*3 && !isnil(t.data) && t.data == before(t.data) && t.defaultFg == before(t.defaultFg) && t.defaultBg == before(t.defaultBg) && t.termWidth == before(t.termWidth) && t.termHeight == before(t.termHeight)
+//@   loop 1 invariant filled: forall(j, int, 0 <= j && j < i ==> t.data[j] == blankByte(t, j))
+
+// activating redraws the console from the viewport
+//@ func (t *VT) SetState(newState State)
+//@   property C18
+//@   requires t != nil && (t.cons != nil ==> wfVT(t))
+//@   modifies t.state, console.scr
+//@   ensures t.state == newState
+//@   ensures redraw: newState == StateActive && old(t.state) != StateActive && t.cons != nil ==> synced(t)
+//@   ensures quiet: newState != StateActive || old(t.state) == newState || t.cons == nil ==> console.scr == old(console.scr)
+//@   loop 1 (y <= t.viewportHeight) invariant y >= 1 && y <= t.viewportHeight + 1 && t.state == StateActive
+//@   loop 1 invariant rows: forall(cx, uint32, cy, uint32, cx >= 1 && cx <= t.viewportWidth && cy >= 1 && cy < y ==> console.scr[(cy-1)*t.viewportWidth + (cx-1)] == console.cellOf(t.data[cellIdx(t, cx, t.viewportY + cy - 1)], t.data[cellIdx(t, cx, t.viewportY + cy - 1) + 1], t.data[cellIdx(t, cx, t.viewportY + cy - 1) + 2]))
+//@   loop 2 (x <= t.viewportWidth) invariant x >= 1 && x <= t.viewportWidth + 1 && y >= 1 && y <= t.viewportHeight && offset == cellIdx(t, x, t.viewportY + y - 1) && t.state == StateActive
+//@   loop 2 invariant cells: forall(cx, uint32, cy, uint32, cx >= 1 && cx <= t.viewportWidth && cy >= 1 && (cy < y || (cy == y && cx < x)) ==> console.scr[(cy-1)*t.viewportWidth + (cx-1)] == console.cellOf(t.data[cellIdx(t, cx, t.viewportY + cy - 1)], t.data[cellIdx(t, cx, t.viewportY + cy - 1) + 1], t.data[cellIdx(t, cx, t.viewportY + cy - 1) + 2]))
